@@ -190,9 +190,31 @@ class Ctx:
             aborted) the remaining cases go to a fresh process."""
             res = []
             todo = list(sh_lines)
+            hangs = 0
+            tmo = timeout
             while todo:
-                p = subprocess.run([binary, layer], input="\n".join(todo) + "\n", stdout=subprocess.PIPE,
-                                   stderr=subprocess.PIPE, text=True, timeout=timeout)
+                if hangs >= 3:
+                    res.extend(["ABORT timeout: skipped after repeated hangs of the process"] * len(todo))
+                    break
+                try:
+                    p = subprocess.run([binary, layer], input="\n".join(todo) + "\n", stdout=subprocess.PIPE,
+                                       stderr=subprocess.PIPE, text=True, timeout=tmo)
+                except subprocess.TimeoutExpired as ex:
+                    # the process hangs on some case: keep the answers it produced, mark the case it was working on,
+                    # and give the remaining cases to a fresh process with a short leash
+                    got = (ex.stdout or b"")
+                    got = got.decode("utf-8", "replace") if isinstance(got, bytes) else got
+                    out = got.split("\n")
+                    if out and out[-1] == "":
+                        out.pop()
+                    out = out[:len(todo)]
+                    res.extend(out)
+                    if len(out) < len(todo):
+                        res.append("ABORT timeout: no answer within %d s (the process hangs on this case)" % tmo)
+                    todo = todo[len(out) + 1:]
+                    tmo = min(tmo, 60)
+                    hangs += 1
+                    continue
                 out = p.stdout.split("\n")
                 if out and out[-1] == "":
                     out.pop()
@@ -217,13 +239,15 @@ class Ctx:
                 res[k + j * nshards] = line
         return res
 
-    def run_model(self, layer, lines, timeout=1200):
+    def run_model(self, layer, lines, timeout=None):
+        timeout = timeout or (400 if self.tier == "quick" else 2400)
         return self._run_bin(VMODEL, layer, lines, timeout)
 
-    def run_impl(self, layer, lines, timeout=1200):
+    def run_impl(self, layer, lines, timeout=None):
+        timeout = timeout or (400 if self.tier == "quick" else 2400)
         return self._run_bin(VHARNESS, layer, lines, timeout)
 
-    def differential(self, layer, cases, timeout=1200):
+    def differential(self, layer, cases, timeout=None):
         """Runs model and implementation on the same cases; returns (model_out, impl_out, mismatch indices)."""
         with ThreadPoolExecutor(max_workers=2) as ex:
             fm = ex.submit(self.run_model, layer, cases, timeout)
